@@ -48,6 +48,8 @@ class ExprMixin:
         raise OutOfReach(f'truthiness of {v}')
 
     def length(self, v, path):
+        if isinstance(v, VRange):
+            return z3.If(v.n > 0, v.n, 0)
         if isinstance(v, (VList, VTuple)):
             return z3.IntVal(len(v.items))
         if isinstance(v, VDict):
@@ -62,6 +64,8 @@ class ExprMixin:
         raise OutOfReach(f'len of {v}')
 
     def elem_kind(self, v):
+        if isinstance(v, VRange):
+            return INT
         if isinstance(v, (VSeq, VHeapList)):
             return v.elem_kind
         if isinstance(v, VList):
@@ -70,6 +74,8 @@ class ExprMixin:
 
     def at(self, v, i, path):
         """element i (z3 Int) of a list-like value, no bounds obligation"""
+        if isinstance(v, VRange):
+            return VInt(i)
         if isinstance(v, VHeapList):
             fn = self.ctx.heap_fn(path if v.heap is None else Path((), {}, v.heap), v.owner.cls, v.field, 'at')
             return self.ctx.val_of(v.elem_kind, fn(v.owner.t, i))
@@ -218,6 +224,8 @@ class ExprMixin:
             return VReal(z3.ToReal(v.t))
         if kind[0] == 'real' and isinstance(v, VBool):
             return VReal(z3.If(v.t, z3.RealVal(1), z3.RealVal(0)))
+        if kind == ENUM('ASTOperation') and isinstance(v, VData):
+            return VEnum('ASTOperation', self.ctx.sorts.Data.op(v.t))      # the datum of an operator node
         if kind[0] == 'str' and isinstance(v, VPy):
             return VStr(self.uf('py_as_str', [self.ctx.sorts.PyVal], z3.StringSort())(v.t))
         if kind[0] == 'data' and isinstance(v, VPy):
@@ -298,6 +306,20 @@ class ExprMixin:
                 a, b = self.coerce(a, REAL), self.coerce(b, REAL)
             elif ka[0] in ('list', 'seq', 'heaplist') and kb[0] in ('list', 'seq', 'heaplist'):
                 pa = self._cur_path
+                OPK = ENUM('ASTOperation')
+
+                def as_ops(v):
+                    D = self.ctx.sorts.Data
+                    return VList([VEnum('ASTOperation', D.op(self.coerce(x, DATA).t)) for x in v.items], OPK)
+                try:
+                    eka = self.elem_kind(a) if not (isinstance(a, VList) and not a.items) else None
+                    ekb = self.elem_kind(b) if not (isinstance(b, VList) and not b.items) else None
+                except OutOfReach:
+                    eka = ekb = None
+                if eka == DATA and ekb == OPK and isinstance(a, VList):
+                    a = as_ops(a)
+                if ekb == DATA and eka == OPK and isinstance(b, VList):
+                    b = as_ops(b)
                 ea = self.elem_kind(a) or self.elem_kind(b)
                 if ea is None:
                     return a
@@ -922,6 +944,16 @@ class ExprMixin:
         if isinstance(a, lists) and isinstance(b, lists) and isinstance(op, ast.Add):
             if isinstance(a, VList) and isinstance(b, VList):
                 return VList(a.items + b.items, a.elem_kind or b.elem_kind)
+            def as_ops(v):
+                # [node.data] + <list of operators>: the datum of an operator node is an operator
+                D = self.ctx.sorts.Data
+                return VList([VEnum('ASTOperation', D.op(self.coerce(x, DATA).t)) for x in v.items], ENUM('ASTOperation'))
+            ka = self.elem_kind(a) if not (isinstance(a, VList) and not a.items) else None
+            kb = self.elem_kind(b) if not (isinstance(b, VList) and not b.items) else None
+            if ka == DATA and kb == ENUM('ASTOperation') and isinstance(a, VList):
+                a = as_ops(a)
+            if kb == DATA and ka == ENUM('ASTOperation') and isinstance(b, VList):
+                b = as_ops(b)
             ta, ea = self.to_seq(a, path) if not (isinstance(a, VList) and not a.items) else (None, None)
             tb, eb = self.to_seq(b, path) if not (isinstance(b, VList) and not b.items) else (None, None)
             if ta is None:
